@@ -52,6 +52,15 @@ def one(rep, rng, j, scn=None):
     scn.pop('free_sleep', None)
     scn['max_workers'] = rng.choice([1, 2, 4, None])
     scn['empty_ctx'] = rng.random() < 0.1
+    if backend in ('fork', 'spawn') and rng.random() < 0.3:
+        # a cache entry disappears between planning and loading: part of the DAG is cached, one worker, gated;
+        # at the first rest point the harness deletes the entry of a load that is still queued
+        names = list(scn['spec']['tasks'])
+        scn['pre'] = rng.sample(names, max(1, len(names) // 2))
+        scn['pre_backend'] = 'serial'
+        scn['max_workers'] = 1
+        scn['gated'] = True
+        scn['evict'] = True
     return _judge(rep, rng, scn, backend)
 
 
@@ -71,7 +80,28 @@ def _judge(rep, rng, scn, backend):
         if scn.get('empty_ctx'):
             ctx = {}        # Lab(context=None) / an empty context: every filter sees an empty dict
         scn['ctx'] = ctx
-        out = engine.run_dag(scn, keep=True)
+        ev = {'done': None}
+
+        def hooks_factory(o, gate, ev=ev):
+            if gate is None or not scn.get('evict'):
+                return None
+
+            def on_rest(g, spy, rest):
+                import shutil
+                if ev['done']:
+                    return
+                launched = {e['name'] for e in g.ledger.entries}
+                for t in spy.inflight:
+                    if g.use_cache.get(t.name) and t.name not in launched:
+                        shutil.rmtree(os.path.join(o.ctl, 'store', t.cache_key), ignore_errors=True)
+                        g.release([t.name])     # should it be executed after all, it must not wait at its gate
+                        ev['done'] = t.name
+                        return
+            gate.on_rest = on_rest
+            return gate
+        out = engine.run_dag(scn, keep=True, hooks_factory=hooks_factory)
+        if ev['done']:
+            rep.count('entries_evicted_between_planning_and_loading')
         try:
             wit = {'scenario': scn}
             if out.exc is not None:
@@ -137,6 +167,7 @@ def run_shard(rep):
     rep.require('runs_spawn', 10)
     rep.require('runs_fork', 10)
     rep.require('runs_serial', 5)
+    rep.require('entries_evicted_between_planning_and_loading', 5)
     for j in range(rep.shard, cfg['n'], rep.nshards):
         if rep.expired():
             rep.count('skipped_for_time')
